@@ -206,9 +206,24 @@ fn c01_sched(input: &Input, obs: &mut Obs) -> Result<(), Fail> {
     let mut any_nontrivial = false;
     let mut last = base.info.clone();
     for _k in 0..3 {
+        // now and then the owner answers what it is handed and writes (or fails to write) between
+        // the reads: the send side has no say in what is delivered
+        let auto = if s.chance(50) { Some(s.u32() | 1) } else { None };
+        let fail = if auto.is_some() && s.chance(110) { s.u32() & s.u32() } else { 0 };
+        AUTO_RESPOND.with(|c| c.set(auto));
+        AUTO_FAIL.with(|c| c.set(fail));
+        if auto.is_some() {
+            obs.label("responses_written_between_reads");
+        }
+        if fail != 0 {
+            obs.label("failed_writes_between_reads");
+        }
         let r = {
             let mut sch = sched_from_src(&mut s, &stream, &bounds, 40);
-            run_focus("C01", &F_C01, &stream, &reqs, &end, limit, false, &mut sch)?
+            let r = run_focus("C01", &F_C01, &stream, &reqs, &end, limit, false, &mut sch);
+            AUTO_RESPOND.with(|c| c.set(None));
+            AUTO_FAIL.with(|c| c.set(0));
+            r?
         };
         if r.offtopic {
             obs.label("offtopic_mismatch");
@@ -657,6 +672,71 @@ pub fn c01() -> PropDef {
 // ---------------------------------------------------------------------------------------
 // C02
 
+/// The owner need not pop after every read: whatever is queued inside the connection, every
+/// request of the grammar that has been received is delivered, in order, once popped.
+/// Bursts of small requests over several reads, nothing popped until the end.
+fn c02_defer(input: &Input, obs: &mut Obs) -> Result<(), Fail> {
+    let mut s = Src::new(input.bytes());
+    let k = match s.weighted(&[3, 4, 3]) {
+        0 => s.range(2, 20),
+        1 => s.range(60, 140),
+        _ => s.range(140, 400),
+    };
+    let mut stream = Vec::new();
+    for i in 0..k {
+        match s.weighted(&[10, 3, 2]) {
+            0 => stream.extend_from_slice(format!("GET /{} HTTP/1.{}\r\n\r\n", i, i % 2).as_bytes()),
+            1 => stream.extend_from_slice(format!("PUT /{} HTTP/1.1\r\nContent-Length: 2\r\n\r\nhi", i).as_bytes()),
+            _ => stream.extend_from_slice(format!("PATCH /{} HTTP/1.0\r\nX-A: {}\r\nExpect: 100-continue\r\nContent-Length: 1\r\n\r\nz", i, i).as_bytes()),
+        }
+    }
+    let (reqs, end) = ref_parse(&stream, buf_size(), DEFAULT_LIMIT);
+    if matches!(end, End::Error { .. }) {
+        return Err(Fail::new("harness-gen", "the burst is not error-free by the reference".into()));
+    }
+    let mut run = ConnRun::new(stream.clone(), None, false);
+    run.keep = true;
+    run.defer_pop = true;
+    let sizes = [7usize, 100, 500, 1024, 1024, 1024];
+    let mut guard = 0;
+    while run.remaining() > 0 && guard < 8 * stream.len() + 64 {
+        guard += 1;
+        let want = sizes[s.below(sizes.len())];
+        let st = run.read(ReadEv::Data { want, fds: vec![] }).map_err(|m| Fail::new("C02:stream-misuse", m))?.clone();
+        match &st.res {
+            RRes::Ok => {}
+            RRes::Panic(m) => return Err(Fail::new("C02:panic", m.clone())),
+            other => return Err(Fail::new("C02:spurious-error", format!("a burst of {} well-formed requests, none popped yet: try_read returned {:?} after {} bytes", k, other, run.consumed))),
+        }
+        // now and then the owner takes a few
+        if s.chance(20) {
+            run.pop_some(s.range(1, 3)).map_err(|m| Fail::new("C02:panic", m))?;
+        }
+    }
+    run.pop_some(usize::MAX).map_err(|m| Fail::new("C02:panic", m))?;
+    let want: Vec<&RefRequest> = reqs.iter().filter(|r| r.complete_at != usize::MAX).collect();
+    if run.kept.len() != want.len() {
+        return Err(Fail::new("C02:delivery-count", format!("{} well-formed requests received ({} bytes, all read), {} delivered once the owner pops", want.len(), stream.len(), run.kept.len())));
+    }
+    for (i, ((_, rq), r)) in run.kept.iter().zip(want.iter()).enumerate() {
+        if let Some(m) = diff_delivered(&delivered_of(rq), r) {
+            return Err(Fail::new("C02:delivery-content", format!("request #{} of the burst: {}", i, m)));
+        }
+    }
+    if k > 64 {
+        obs.label("more_than_64_requests_queued");
+    }
+    obs.nontrivial = k >= 2;
+    if obs.want_render {
+        obs.render = format!("burst of {} requests, {} bytes", k, stream.len());
+    }
+    Ok(())
+}
+
+pub fn c02_subs_extra() -> (&'static str, SubFn) {
+    ("defer", c02_defer)
+}
+
 fn c02_grammar(input: &Input, obs: &mut Obs) -> Result<(), Fail> {
     let mut s = Src::new(input.bytes());
     let limit = pick_limit(&mut s, true);
@@ -672,14 +752,17 @@ fn c02_grammar(input: &Input, obs: &mut Obs) -> Result<(), Fail> {
         // now and then the owner answers what it is handed and writes between reads: what the
         // connection accepts, delivers and rejects does not depend on it
         let auto = if s.chance(60) { Some(s.u32() | 1) } else { None };
+        let fail = if auto.is_some() && s.chance(100) { s.u32() & s.u32() } else { 0 };
         struct Reset;
         impl Drop for Reset {
             fn drop(&mut self) {
                 AUTO_RESPOND.with(|c| c.set(None));
+                AUTO_FAIL.with(|c| c.set(0));
             }
         }
         let _reset = Reset;
         AUTO_RESPOND.with(|c| c.set(auto));
+        AUTO_FAIL.with(|c| c.set(fail));
         if auto.is_some() {
             obs.label("responses_written_between_reads");
         }
@@ -790,6 +873,7 @@ fn c02_plan(tier: Tier) -> Vec<Job> {
     let q = tier == Tier::Quick;
     vec![
         Job { sub: "grammar", kind: JobKind::Pbt { cases: if q { 400_000 } else { 6_000_000 }, max_len: 1000 }, smallbuf: false },
+        Job { sub: "defer", kind: JobKind::Pbt { cases: if q { 6_000 } else { 100_000 }, max_len: 300 }, smallbuf: false },
         Job { sub: "edit", kind: JobKind::Enum { f: c02_edit_enum, bound: "4 canonical request streams x every byte position x {delete, replace by each of the 256 byte values, insert each of the 256 byte values}" }, smallbuf: false },
     ]
 }
@@ -797,7 +881,7 @@ fn c02_plan(tier: Tier) -> Vec<Job> {
 pub fn c02() -> PropDef {
     PropDef {
         id: "C02",
-        subs: vec![("grammar", c02_grammar), ("edit", c02_edit), ("raw", crate::props::raw::c02_raw)],
+        subs: vec![("grammar", c02_grammar), ("edit", c02_edit), ("raw", crate::props::raw::c02_raw), ("defer", c02_defer)],
         plan: c02_plan,
         rule: "case = byte stream of 1..4 requests from the grammar with per-element corruptions (method, SP, URI, version, line ends, header lines, Content-Length spellings, body length), payload limit, one random read schedule; oracle = REF both directions (every REF request delivered with identical fields, nothing else; error class names the first offending element); non-trivial = REF outcome is not 'incomplete with zero requests'; distinct = hash of (stream, limit)",
         assumptions: vec![
